@@ -1,4 +1,5 @@
 CONSTANTS
+  GenLen = 0
   FixU1 = TRUE
   MaxOps = 0
   MaxBlocks = 0
